@@ -4,6 +4,7 @@ import (
 	"time"
 
 	"github.com/aptpod/iscp-go/internal/vf"
+	"github.com/aptpod/iscp-go/internal/vfmsg"
 	"github.com/aptpod/iscp-go/message"
 	autogen "github.com/aptpod/iscp-proto/gen/gogofast/iscp2/v1"
 )
@@ -140,5 +141,27 @@ func zzC11bUpstreamOpenRequest() {
 	} else {
 		vf.Assert("extension-kept", g.ExtensionFields != nil && g.ExtensionFields.Persist == ext.Persist)
 	}
+	vf.Reach("end")
+}
+
+// C11.g: converter round trip for every message type with every scalar field symbolic: the message
+// that comes back equals the one that went in (nil and empty collections identified, times compared
+// as instants), extension fields present or absent.
+func zzC11gAllTypes() {
+	kind := vf.Choose("kind", vfmsg.Kinds)
+	ext := vf.Choose("ext", 2) == 1
+	g := &vfmsg.Gen{Profile: -1}
+	m := g.Build(kind, ext)
+	pb, err := WireToProto(m)
+	vf.Assert("to-proto-ok", err == nil && pb != nil)
+	if err != nil || pb == nil {
+		return
+	}
+	back, err2 := ProtoToWire(pb)
+	vf.Assert("to-wire-ok", err2 == nil && back != nil)
+	if err2 != nil {
+		return
+	}
+	vf.Assert("round-trip-equal", vf.CanonEqual(m, back))
 	vf.Reach("end")
 }
